@@ -140,21 +140,20 @@ func (el *ErrorListener) ReportContextSensitivity(recognizer antlr.Parser, dfa *
 //	// ignored
 //}
 
+// zqlStringUnescaper removes ZitiQL string escaping. All escape sequences are handled in a single
+// left to right pass, so that the output of one replacement is never treated as part of another escape
+var zqlStringUnescaper = strings.NewReplacer(
+	`\\`, `\`,
+	`\"`, `"`,
+	`\f`, "\f",
+	`\n`, "\n",
+	`\r`, "\r",
+	`\t`, "\t",
+)
+
 func ParseZqlString(text string) string {
 	t := strings.TrimSuffix(strings.TrimPrefix(text, `"`), `"`)
-
-	//remove golang string back slash escaping
-	t = strings.Replace(t, `\\`, `\`, -1)
-
-	//remove ZitiQL string escaping
-	t = strings.Replace(t, `\"`, `"`, -1)
-	t = strings.Replace(t, `\f`, "\f", -1)
-	t = strings.Replace(t, `\n`, "\n", -1)
-	t = strings.Replace(t, `\r`, "\r", -1)
-	t = strings.Replace(t, `\t`, "\t", -1)
-	t = strings.Replace(t, `\\`, `\`, -1)
-
-	return t
+	return zqlStringUnescaper.Replace(t)
 }
 
 var dateTimeStripper = regexp.MustCompile(`^\s*datetime\(\s*(.*?)\s*\)\s*$`)
